@@ -1,0 +1,26 @@
+//go:build verif
+
+// Contracts for the CHF context. Compiled only under the build tag "verif".
+
+package context
+
+func verif_forall[T any](f func(T) bool) bool { return true }
+
+// SpecUeOK: the invariant of every subscriber context in the pool: established by (*ChfUe).init,
+// which is the only place that assigns these members.
+func SpecUeOK(ue *ChfUe) bool {
+	return ue != nil && ue.ReservedQuota != nil && ue.UnitCost != nil && ue.AcctRequestNum != nil && ue.RatingType != nil &&
+		ue.Cdr != nil && ue.AbmfClient != nil && ue.RatingClient != nil && ue.AbmfMux != nil && ue.RatingMux != nil
+}
+
+// NewCHFUe builds the subscriber context with go-diameter state machines and id generators, which
+// are outside the verified subset: its contract is assumed.
+//@ func (*CHFContext).NewCHFUe [C11 C12 C10]
+//@   trusted
+//@   ensures result1 == nil ==> SpecUeOK(result0)
+//@   ensures result1 != nil ==> result0 == nil
+
+//@ func (*CHFContext).ChfUeFindBySupi [C11 C12 C10 C01 C06]
+//@   trusted
+//@   ensures result1 ==> SpecUeOK(result0)
+//@   ensures !result1 ==> result0 == nil
